@@ -15,7 +15,7 @@ OK == 0
 FAILURE == 1
 
 
-NoSes == [ phase |-> "none", codec |-> 0, role |-> "none", k |-> 0, n |-> 0, len |-> 0, m |-> 0, npos |-> 0,
+NoSes == [ phase |-> "none", codec |-> 0, role |-> "none", both |-> FALSE, k |-> 0, n |-> 0, len |-> 0, m |-> 0, npos |-> 0,
            payload |-> "id", H |-> <<>>, claim |-> FALSE, cbMode |-> "none",
            rcvd |-> {}, known |-> {}, done |-> FALSE, finished |-> FALSE, mlok |-> FALSE,
            appHeld |-> {}, appMaybe |-> {}, cbs |-> {}, built |-> <<>>, everComplete |-> FALSE ]
